@@ -5,6 +5,7 @@ import (
 	"fmt"
 	"os"
 	"path/filepath"
+	"regexp"
 	"sort"
 	"strings"
 	"sync"
@@ -301,22 +302,19 @@ func inventoryNames(obls []*Obligation) []string {
 	set := map[string]bool{}
 	for _, ob := range obls {
 		switch ob.Kind {
-		case "ensures", "invariant-init", "invariant-preserve", "lemma", "requires@call", "census", "guard", "roundtrip", "decreases":
-			set[ob.Name] = true
+		case "ensures", "invariant-init", "invariant-preserve", "lemma", "census", "guard", "roundtrip", "decreases":
+			// the number of return points / call sites / back edges may change with harmless edits
+			set[stripInstance(ob.Name)] = true
 		case "engine", "unsupported":
-		case "frame":
-			base := ob.Name
-			if i := strings.Index(base, "#frame"); i >= 0 {
-				base = base[:i] + "#frame"
-			}
-			set[base] = true
 		default:
-			// generated from code: pin only the function#kind
-			base := ob.Name
-			if i := strings.Index(base, "~"); i >= 0 {
-				base = base[:i]
+			// generated from the code: pin only "this unit produced obligations of this group"
+			grp := ob.Kind
+			if k := strings.Index(grp, ":"); k >= 0 {
+				grp = grp[:k]
 			}
-			set[base] = true
+			if ob.Unit != nil {
+				set[ob.Unit.Name+"#"+grp] = true
+			}
 		}
 	}
 	var out []string
@@ -326,6 +324,10 @@ func inventoryNames(obls []*Obligation) []string {
 	sort.Strings(out)
 	return out
 }
+
+var instanceSuffix = regexp.MustCompile(`(@ret\d+|~\d+|\.\d+$)`)
+
+func stripInstance(n string) string { return instanceSuffix.ReplaceAllString(n, "") }
 
 func checkInventory(prop string, obls []*Obligation) []string {
 	b, err := os.ReadFile(filepath.Join(verifRoot, "inventory", prop+".txt"))
@@ -520,20 +522,20 @@ func writeEvidence(o CheckOpts, res *CheckResult, viol int) {
 		"a panicking path ends the execution (partial correctness) except in functions marked safe, where every panic is an obligation",
 		"termination is proved only where a decreases clause is given")
 	cov := map[string]interface{}{
-		"obligations":        res.Total,
-		"discharged":         res.Discharged + len(res.Known),
+		"obligations":                       res.Total,
+		"discharged":                        res.Discharged + len(res.Known),
 		"discharged_without_known_findings": res.Discharged,
-		"known_findings":     known,
-		"checker_cmd":        fmt.Sprintf("/verif/bin/govc check %s --tier %s", o.Prop, tier),
-		"trusted_base":       res.Trusted,
-		"functions_under_contract": res.Functions,
-		"by_solver":          res.BySolver,
-		"solver_cpu_s":       float64(res.SolverMs) / 1000,
-		"notes":              res.Notes,
-		"samples":            samples,
-		"obligation_list":    obls,
-		"missing_pinned":     res.Missing,
-		"explanation":        "contract-based deductive verification: verification conditions generated from the go/ssa of /repo's working tree and the //@ contracts in <pkg>/zz_contracts_verif.go, each discharged by an SMT solver (unsat of the negated goal)",
+		"known_findings":                    known,
+		"checker_cmd":                       fmt.Sprintf("/verif/bin/govc check %s --tier %s", o.Prop, tier),
+		"trusted_base":                      res.Trusted,
+		"functions_under_contract":          res.Functions,
+		"by_solver":                         res.BySolver,
+		"solver_cpu_s":                      float64(res.SolverMs) / 1000,
+		"notes":                             res.Notes,
+		"samples":                           samples,
+		"obligation_list":                   obls,
+		"missing_pinned":                    res.Missing,
+		"explanation":                       "contract-based deductive verification: verification conditions generated from the go/ssa of /repo's working tree and the //@ contracts in <pkg>/zz_contracts_verif.go, each discharged by an SMT solver (unsat of the negated goal)",
 	}
 	if res.LoadErr != nil {
 		cov["load_error"] = res.LoadErr.Error()
